@@ -424,6 +424,70 @@ func c17Scenarios(tier string) []*world.Scenario {
 			out = append(out, sc)
 		}
 	}
+	// production-size limit (6 MiB) and arguments around 1 MiB (the array-count bound, which is not a bound on arguments)
+	// and around the limit itself: served up to the limit, the too-large error above it, the connection stays usable
+	{
+		const lim = 6 << 20
+		sizes := []int{1<<20 - 1, 1 << 20, 1<<20 + 1, 3 << 19, lim - 100, lim + 1, 13 << 19}
+		if tier != "thorough" {
+			sizes = []int{1 << 20, 1<<20 + 1, 3 << 19, lim + 1}
+		}
+		for _, kind := range []string{"set", "mset", "eval"} {
+			for _, sz := range sizes {
+				if tier != "thorough" && kind != "set" && sz != 1<<20+1 {
+					continue
+				}
+				val := strings.Repeat("V", sz)
+				var raw []byte
+				switch kind {
+				case "set":
+					raw = world.Cmd("set", keysA[0], val)
+				case "mset":
+					raw = world.Cmd("mset", keysA[0], val, keysB[0], "w")
+				case "eval":
+					raw = world.Cmd("eval", "return 1", "1", keysA[0], val)
+				}
+				over := len(raw) > lim
+				r := Req{Kind: kind, Bytes: raw}
+				if over {
+					r.Expect, r.Local = []byte(world.RErrReqLarge), true
+				}
+				follow := GetReq(keysC[1])
+				cs := ClientOf([]Req{r, follow}, false)
+				cs.Chunks[1].WaitReplies = 1
+				sc := &world.Scenario{Nodes: T3m(), Bound: 0, Family: "size-production", Horizon: 5000, InputEnum: true, MaxLen: lim, ReadCap: 65536, WriteCap: 65536,
+					Name: fmt.Sprintf("C17/size-production/%s/arg%d", kind, sz)}
+				sc.Clients = []world.ClientSpec{cs}
+				n := len(raw)
+				sc.Check = func(w *world.World) []world.Violation {
+					nfwd := 0
+					for _, rec := range w.DataCmds("") {
+						if len(rec.Raw) > 1000 {
+							nfwd++
+						}
+					}
+					if over && nfwd > 0 {
+						return []world.Violation{{Sig: "oversize-request-forwarded", Msg: fmt.Sprintf("request of %d bytes (limit %d) was forwarded", n, lim)}}
+					}
+					vs := CheckStreams(w, StreamOpts{})
+					for i := range vs {
+						if len(vs[i].Msg) > 300 {
+							vs[i].Msg = vs[i].Msg[:300] + "..."
+						}
+						if !over {
+							vs[i].Sig = "supported-rejected:" + kind
+							vs[i].Msg = fmt.Sprintf("a well-formed %s request of %d bytes (limit %d, largest argument %d bytes) was not served: ", kind, n, lim, sz) + vs[i].Msg
+						}
+					}
+					if len(vs) == 0 && !over && nfwd == 0 {
+						vs = append(vs, world.Violation{Sig: "supported-rejected:" + kind, Msg: fmt.Sprintf("request of %d bytes was not forwarded", n)})
+					}
+					return vs
+				}
+				out = append(out, sc)
+			}
+		}
+	}
 	// every command family around the limit: single-key read / write, split commands, scripts
 	{
 		pad := func(base []string, fill int, total int) []byte {
